@@ -133,6 +133,12 @@ impl Group for Secp256K1Group {
         let encoded_point =
             k256::Sec1Point::from_bytes(buf).map_err(|_| GroupError::MalformedElement)?;
 
+        // Only the compressed form is canonical; the 33-byte "compact" form
+        // (tag 0x05) would decode to the same element as tag 0x02.
+        if !encoded_point.is_compressed() {
+            return Err(GroupError::MalformedElement);
+        }
+
         match Option::<AffinePoint>::from(AffinePoint::from_sec1_point(&encoded_point)) {
             Some(point) => {
                 if point.is_identity().into() {
